@@ -886,6 +886,11 @@ Fixpoint oloop_run (n : node) (oid : nat) (sp : list bytes) (cnt : nat) (i : nat
       if stop then c else oloop_run n oid sp cnt' (S i) c brk'
   end.
 
+(* after the loop the key variable gets its own copy of the key (a bufBB slot):
+   the loop object's key buffer is reused by the next loop *)
+Definition key_slot (n : node) (c : ctx) : ctx :=
+  match loopKey n with [] => c | _ => w_lenBB c (S (lenBB c)) end.
+
 (* Ctx.rloop *)
 Definition rloop (n : node) (c : ctx) : ctx :=
   match split_path (loopSrc n) with
@@ -905,7 +910,7 @@ Definition rloop (n : node) (c : ctx) : ctx :=
                      (known finding KF-C05-childless). *)
                   match jget j rest with
                   | JAbsent => c
-                  | JArr (_ :: _) | JObj (_ :: _) => vloop n (jchildren (jget j rest)) 0 c false
+                  | JArr (_ :: _) | JObj (_ :: _) => key_slot n (vloop n (jchildren (jget j rest)) 0 c false)
                   | _ => w_cerr c (Some EUnsupported)
                   end
               | _ => c
@@ -916,7 +921,9 @@ Definition rloop (n : node) (c : ctx) : ctx :=
                   match nth_error (store c) oid with
                   | Some ob =>
                       match oloop ofuel ob (prefix ++ rest) with
-                      | Some (sp, cnt) => oloop_run n oid sp cnt 0 c false
+                      | Some (sp, cnt) =>
+                          let c' := oloop_run n oid sp cnt 0 c false in
+                          match cnt with O => c' | S _ => key_slot n c' end
                       | None => c
                       end
                   | None => c
